@@ -204,6 +204,10 @@ func (g *Gen) call(st *State, site ssa.Instruction, c *ssa.CallCommon, rt types.
 			return g.applyFuncSpec(st, fs, static, args, rt)
 		}
 		inline := static.Parent() != nil && len(static.Blocks) > 0
+		if !inline && g.W.isNewFunc(static) && static != g.fn && static != g.rootFn {
+			inline = true
+			g.note("inline", "helper "+static.Name()+" did not exist on the baseline tree: executed in place")
+		}
 		if g.rootSpec() != nil {
 			for _, n := range splitList(g.rootSpec().Options["inline"]) {
 				for _, k := range keys {
